@@ -405,6 +405,12 @@ func (h *Handler) HandleDeleteFile(ctx *Context, path string) error {
 		return &fs.PathError{Op: "remove", Path: path, Err: syscall.EISDIR}
 	}
 
+	// served root may be a symlink, it must stay too
+	if isRoot(path) {
+		log.WarnContext(ctx, "Refusing to remove root directory")
+		return &fs.PathError{Op: "remove", Path: path, Err: syscall.EBUSY}
+	}
+
 	if err := h.Fs.Remove(path); err != nil {
 		log.WarnContext(ctx, "Remove file failed", logutil.ErrorAttr(err))
 		return err
@@ -452,7 +458,7 @@ func (h *Handler) HandleRmdir(ctx *Context, path string) error {
 	}
 
 	// served root itself must stay
-	if filepath.Clean(string(filepath.Separator)+path) == string(filepath.Separator) {
+	if isRoot(path) {
 		log.WarnContext(ctx, "Refusing to remove root directory")
 		return &fs.PathError{Op: "rmdir", Path: path, Err: syscall.EBUSY}
 	}
@@ -463,6 +469,10 @@ func (h *Handler) HandleRmdir(ctx *Context, path string) error {
 	}
 
 	return nil
+}
+
+func isRoot(path string) bool {
+	return filepath.Clean(string(filepath.Separator)+path) == string(filepath.Separator)
 }
 
 // lstat returns info about path itself (not about symlink target) if filesystem is able to provide it.
